@@ -212,6 +212,15 @@ func (os *ObjectStream) GetObjectByIndex(index int) (Object, int, error) {
 	if endOffset > len(os.decoded) {
 		endOffset = len(os.decoded)
 	}
+	// Offsets are required to increase; when the next object's offset lies
+	// before this one, read up to the end of the data instead of slicing
+	// backwards
+	if offset < 0 {
+		return nil, 0, fmt.Errorf("object offset %d is negative", offset)
+	}
+	if endOffset < offset {
+		endOffset = len(os.decoded)
+	}
 
 	// Parse the object from its data slice
 	objectData := os.decoded[offset:endOffset]
